@@ -490,6 +490,20 @@ func ROwn(c *core.Ctx) {
 						}
 					}
 					c.Check(gaveBack, name+" / pooled rune buffer given back in a deferred call", call.Pos(), "decodeString* hands out a buffer from the global pool")
+					// ... and only there: a second, explicit put on some path hands the same buffer to two later borrowers
+					direct := token.NoPos
+					for _, bb := range fn.Blocks {
+						for _, i2 := range bb.Instrs {
+							if c2, ok := i2.(*ssa.Call); ok && poolPut != nil {
+								if cal := c2.Call.StaticCallee(); cal != nil && (cal == poolPut || cal.Origin() == poolPut.Origin() && cal.Origin() != nil) {
+									direct = c2.Pos()
+								}
+							}
+						}
+					}
+					if gaveBack {
+						c.Check(direct == token.NoPos, name+" / pooled rune buffer is released exactly once", call.Pos(), "besides the deferred release there is an explicit put at %s: on that path the buffer enters the pool twice and two later callers share it", p.Pos(direct))
+					}
 				}
 			}
 		}
